@@ -32,30 +32,35 @@ def run(ctx):
     if ctx.replay:
         h.replay(ctx, "TestReplay$")
         return
-    w = min(ctx.cores, 8)
+    emit_root = os.path.join(ctx.scratch, "emit")
+    J = []  # independent TLC jobs, run concurrently
+
+    def job(f, *a, **kw):
+        J.append(lambda: f(ctx, *a, **kw))
     # ---- 1. design level
-    h.mc(ctx, "keys-honest-batch-C", "Acl_mc_keys.cfg", SET="C", MaxDepth=1 if thorough else 0, workers=w, timeout=3000)
-    h.mc(ctx, "keys-honest-single-C", "Acl_mc_keys.cfg", SET="C", SPECIFICATION="Spec", MaxDepth=3 if thorough else 2, workers=w, timeout=3000)
-    h.mc(ctx, "keys-hostile-B", "Acl_mc_A.cfg", SET="B", MaxDepth=2 if thorough else 1, workers=w, timeout=3000)
+    job(h.mc, "keys-honest-single-C", "Acl_mc_keys.cfg", SET="C", SPECIFICATION="Spec", MaxDepth=3 if thorough else 2, workers=4, timeout=3000)
+    job(h.mc, "keys-honest-batch-C", "Acl_mc_keys.cfg", SET="C", MaxDepth=1 if thorough else 0, workers=4 if thorough else 2, timeout=3000)
+    job(h.mc, "keys-hostile-B", "Acl_mc_A.cfg", SET="B", MaxDepth=2 if thorough else 1, timeout=3000)
     if thorough:
-        h.mc(ctx, "keys-honest-single-D", "Acl_mc_keys.cfg", SET="D", SPECIFICATION="Spec", MaxDepth=4, workers=w, timeout=3000)
-        h.mc(ctx, "keys-hostile-batch-D", "Acl_mc_batch.cfg", SET="D", MaxDepth=1, workers=w, timeout=3000)
+        job(h.mc, "keys-honest-single-D", "Acl_mc_keys.cfg", SET="D", SPECIFICATION="Spec", MaxDepth=4, workers=4, timeout=3000)
+        job(h.mc, "keys-hostile-batch-D", "Acl_mc_batch.cfg", SET="D", MaxDepth=1, workers=4, timeout=3000)
     # ---- 2. the validator as it was found
-    h.asis(ctx, "grant-without-key", ["KeyInv"], SET="B", MaxDepth=2, FIX_PERMCHANGE_MEMBER=False, workers=w)
-    h.asis(ctx, "double-rotation", ["KeyInv"], SET="E", MaxDepth=2, SPECIFICATION="SpecB", FIX_ONE_ROTATION=False, workers=w, timeout=1800)
-    h.replay(ctx, "TestCounterexamples$", VERIF_CEX=os.path.join(ctx.scratch, "cex"))
+    job(h.asis, "grant-without-key", ["KeyInv"], SET="B", MaxDepth=0, FIX_PERMCHANGE_MEMBER=False)
+    job(h.asis, "double-rotation", ["KeyInv"], SET="E", MaxDepth=1, SPECIFICATION="SpecB", FIX_ONE_ROTATION=False, timeout=1800)
     # ---- 3. spec -> code: private views, log adversary, raw recipients, client builder
     if thorough:
-        h.emit(ctx, "C", "AclGen.cfg", SET="C", GenDepth=2, FullDepth=0, BatchDepth=1, timeout=3000)
-        h.emit(ctx, "B", "AclGen.cfg", SET="B", GenDepth=1, FullDepth=0, BatchDepth=0, timeout=3000)
-        h.emit(ctx, "C-deep", "AclGen.cfg", SET="C", SimDepth=6, SimSample=8, simulate=40, depth=7, timeout=3000)
-        h.emit(ctx, "B-deep", "AclGen.cfg", SET="B", SimDepth=4, SimSample=8, simulate=20, depth=5, timeout=3000)
+        job(h.emit, "C", "AclGen.cfg", SET="C", GenDepth=2, FullDepth=0, BatchDepth=1, timeout=3000)
+        job(h.emit, "B", "AclGen.cfg", SET="B", GenDepth=1, FullDepth=0, BatchDepth=0, timeout=3000)
+        job(h.emit, "C-deep", "AclGen.cfg", SET="C", SimDepth=6, SimSample=8, simulate=40, depth=7, timeout=3000)
+        job(h.emit, "B-deep", "AclGen.cfg", SET="B", SimDepth=4, SimSample=8, simulate=20, depth=5, timeout=3000)
     else:
-        h.emit(ctx, "C", "AclGen.cfg", SET="C", GenDepth=1, FullDepth=0, BatchDepth=0)
-        h.emit(ctx, "D", "AclGen.cfg", SET="D", GenDepth=2, FullDepth=0, BatchDepth=0)
-        h.emit(ctx, "C-deep", "AclGen.cfg", SET="C", SimDepth=5, SimSample=8, simulate=8, depth=6)
-    h.nonvacuous(ctx, os.path.join(ctx.scratch, "emit"))
-    h.replay(ctx, "TestReplay$", VERIF_BEHAVIOURS=os.path.join(ctx.scratch, "emit"))
+        job(h.emit, "D", "AclGen.cfg", SET="D", GenDepth=2, FullDepth=0, BatchDepth=0)
+        job(h.emit, "C", "AclGen.cfg", SET="C", GenDepth=1, FullDepth=0, BatchDepth=0)
+        job(h.emit, "C-deep", "AclGen.cfg", SET="C", SimDepth=5, SimSample=8, simulate=6, depth=6)
+    h.parallel(ctx, J)
+    h.replay(ctx, "TestCounterexamples$", VERIF_CEX=os.path.join(ctx.scratch, "cex"))
+    h.nonvacuous(ctx, emit_root)
+    h.replay(ctx, "TestReplay$", VERIF_BEHAVIOURS=emit_root)
     # ---- 4. tree content under each key generation
     h.replay(ctx, "TestTree$")
     ctx.assume("key ciphertexts carried by records are well-formed (they encrypt the then-current read key); a manager "
